@@ -434,7 +434,7 @@ NOT_YET = {}
 
 # Properties whose check has been reviewed, is silent on the unchanged tree at several seeds and has
 # caught seeded mutations; only these are claimed in MANIFEST.json.
-REGISTERED = ["C01", "C02", "C05", "C10", "C11", "C12", "C14", "C15", "C17", "C18", "C19", "C20"]
+REGISTERED = ["C01", "C02", "C03", "C05", "C06", "C07", "C10", "C11", "C12", "C14", "C15", "C16", "C17", "C18", "C19", "C20"]
 
 
 def main(argv):
